@@ -69,6 +69,22 @@ theorem gaussian_logpdf (mu sigma x : ℝ) (hs : 0 < sigma) :
   rw [hprob]
   exact logOfProb_nonneg _ (gaussianPDFReal_nonneg _ _ _)
 
+/-- the Gaussian prior is symmetric about its mean and accepts every real value (it has no support to leave). -/
+theorem gaussian_symmetric (mu sigma d : ℝ) :
+    logPrior π' (.gaussian mu sigma) (mu + d) = logPrior π' (.gaussian mu sigma) (mu - d) := by
+  rw [logPrior, logPrior]
+  have h1 : sq (mu + d - mu) = d ^ 2 := by rw [sq_eq]; ring
+  have h2 : sq (mu - d - mu) = d ^ 2 := by rw [sq_eq]; ring
+  rw [h1, h2]
+
+theorem gaussian_never_rejects (mu sigma x : ℝ) (hs : 0 < sigma) : (logPrior π' (.gaussian mu sigma) x).isSome = true := by
+  rw [gaussian_logpdf mu sigma x hs]; rfl
+
+/-- inside its support the uniform prior does not depend on the value at all. -/
+theorem uniform_flat (lb ub x y : ℝ) (hx : lb ≤ x ∧ x ≤ ub) (hy : lb ≤ y ∧ y ≤ ub) :
+    logPrior π' (.uniform lb ub) x = logPrior π' (.uniform lb ub) y := by
+  rw [uniform_logpdf lb ub x hx.1 hx.2, uniform_logpdf lb ub y hy.1 hy.2]
+
 /-! ### Exponential (rate λ) -/
 
 theorem exponential_logpdf (lam x : ℝ) (hl : 0 < lam) (hx : 0 ≤ x) :
